@@ -121,6 +121,8 @@ def check_decoders_pure(ck, R):
 
 
 def check(ck):
+    from .memo import check_new_memo_tables
+    ck.run(check_new_memo_tables, ck, "C11.M1", ('serialization', 'reference', 'metadata'))
     R1, R2, R3, R4, R5 = ("C11.R%d" % i for i in range(1, 6))
     ck.rule(R1, "pairwise key agreement: for each encode/decode pair the keys of the emitted object equal the keys the decoder reads", 7)
     ck.rule(R2, "field coverage: for each rebuilt class, constructor parameters == keyword arguments the decoder passes, "
